@@ -148,6 +148,25 @@ func VerifyFunc(p *Program, fn *ssa.Function, cfg Config, opt Options) (res *Uni
 			}
 			u.limit("engine panic: %v", r)
 		}
+		if u.Cfg.FrameCheck && u.Cfg.FrameSummary {
+			// the frame condition as one named obligation per function: every
+			// store examined on every path went to memory the call allocated
+			name := FuncName(fn) + "#frame:writes only memory allocated during the call (receiver, arguments and package-level state unchanged)"
+			o := &Obligation{Name: name, Kind: "frame", Func: FuncName(fn), Text: "modifies nothing", Status: "proved", Instances: u.StoresSeen + 1,
+				Solver: "symbolic execution: no store reached pre-existing memory on any path"}
+			for _, x := range u.Obls {
+				if x.Kind == "frame" && x.Status != "proved" {
+					o.Status = x.Status
+				}
+			}
+			if len(u.Limits) > 0 {
+				o.Status = "unknown"
+			}
+			if _, dup := u.Obls[name]; !dup {
+				u.Obls[name] = o
+				u.oblOrder = append(u.oblOrder, name)
+			}
+		}
 		res.Obls = u.Results()
 		res.Paths = u.Paths + 1
 		res.Returns = u.Returns
